@@ -5,11 +5,16 @@ package sniffing
 // QUIC v2 RFC 9369), NOT from the sniffer: only the Go standard library is used.
 
 import (
+	"bytes"
 	"crypto/aes"
 	"crypto/cipher"
 	"crypto/hkdf"
 	"crypto/sha256"
 	"encoding/binary"
+	"encoding/hex"
+	"fmt"
+	"sort"
+	"strings"
 )
 
 // ---------------------------------------------------------------- TLS ClientHello
@@ -218,3 +223,660 @@ func c06CryptoFrame(off uint64, data []byte, offSz, lenSz int) []byte {
 	b = append(b, c06Varint(uint64(len(data)), lenSz)...)
 	return append(b, data...)
 }
+
+// ---------------------------------------------------------------- generators (package neutral)
+
+func c06Hex(b []byte) string {
+	if len(b) == 0 {
+		return "-"
+	}
+	return hex.EncodeToString(b)
+}
+
+var c06Methods = []string{"GET", "POST", "PUT", "PATCH", "DELETE", "COPY", "HEAD", "OPTIONS", "LINK", "UNLINK", "PURGE", "LOCK", "UNLOCK", "PROPFIND", "CONNECT", "TRACE"}
+
+type c06Gen struct {
+	r     *VRand
+	stats *VStats
+}
+
+func (g *c06Gen) bytes(n int) []byte {
+	b := make([]byte, n)
+	for i := range b {
+		b[i] = byte(g.r.U64())
+	}
+	return b
+}
+
+const c06LabelChars = "abcdefghijklmnopqrstuvwxyz0123456789-"
+
+func (g *c06Gen) plainName() string {
+	n := g.r.Range(1, 4)
+	var labels []string
+	for i := 0; i < n; i++ {
+		l := g.r.Range(1, 12)
+		if g.r.Chance(0.05) {
+			l = 63
+		}
+		var sb strings.Builder
+		for j := 0; j < l; j++ {
+			sb.WriteByte(c06LabelChars[g.r.Intn(len(c06LabelChars))])
+		}
+		labels = append(labels, sb.String())
+	}
+	return strings.Join(labels, ".")
+}
+
+// returns the name as carried and, when the documented answer is obvious (a plain DNS name, any
+// case, optional trailing dot), that answer; otherwise expect == "?".
+func (g *c06Gen) name() (carried []byte, expect string, class string) {
+	p := g.plainName()
+	switch g.r.Intn(20) {
+	case 0, 1, 2, 3, 4, 5, 6, 7:
+		return []byte(p), p, "plain"
+	case 8, 9:
+		return []byte(strings.ToUpper(p[:1]) + p[1:]), p, "mixedcase"
+	case 10:
+		return []byte(strings.ToUpper(p)), p, "upper"
+	case 11, 12:
+		return []byte(p + "."), p, "trailingdot"
+	case 13:
+		weird := []string{"", ".", "..", " a.com ", "a.com:443", "[::1]", "[::1]:443", "::1", "1.2.3.4", "1.2.3.4:80",
+			"a:b:c", "]", "[", "a]", "[a", "a.com..", "\ta.com\r\n", "[fe80::1%eth0]:53", "a.com:", ":80", "[]:1", "[a]b:1", "[a]:b:1", "x[y:1", "x]y:1"}
+		return []byte(weird[g.r.Intn(len(weird))]), "?", "weird"
+	case 14:
+		return []byte("b\xc3\xbccher." + p), "?", "nonascii"
+	case 15:
+		return append([]byte(p), 0xff, 0x85), "?", "nonascii"
+	case 16:
+		return []byte(strings.Repeat("a", 255)), strings.Repeat("a", 255), "long"
+	case 17:
+		return []byte(p + ":" + fmt.Sprint(g.r.Intn(65536))), "?", "withport"
+	default:
+		return []byte(p), p, "plain"
+	}
+}
+
+type c06HelloCase struct {
+	h       *c06Hello
+	structT string // structured text for the chenc op
+	expect  string // "?" unknown, "nf", "na", or the expected (normalised) name
+	class   string
+}
+
+func c06Grease(r *VRand) uint16 {
+	k := uint16(r.Intn(16))
+	return k<<12 | 0x0a00 | k<<4 | 0x0a
+}
+
+func (g *c06Gen) hello() *c06HelloCase {
+	r := g.r
+	h := &c06Hello{Minor: 3, Random: g.bytes(32)}
+	switch r.Intn(12) {
+	case 0:
+		h.Minor = 1
+	case 1:
+		h.Minor = 2
+	}
+	switch r.Intn(5) {
+	case 0: // empty session id
+	case 1:
+		h.Sid = g.bytes(r.Range(1, 31))
+	default:
+		h.Sid = g.bytes(32)
+	}
+	h.Suites = g.bytes(2 * r.Range(1, 20))
+	if r.Chance(0.1) {
+		h.Suites = g.bytes(2 * r.Range(100, 300))
+	}
+	h.Comp = []byte{0}
+	if r.Chance(0.1) {
+		h.Comp = []byte{1, 0}
+	}
+	c := &c06HelloCase{h: h, expect: "nf", class: "nosni"}
+	type item struct {
+		e    c06Ext
+		text string
+		exp  string // for server_name extensions: documented answer of its first host_name entry ("" = none)
+		cls  string
+	}
+	var items []item
+	other := func(t uint16, d []byte) { items = append(items, item{e: c06Ext{t, d}, text: fmt.Sprintf("o%d:%s", t, c06Hex(d))}) }
+	// server_name extension(s)
+	nSni := 1
+	switch r.Intn(20) {
+	case 0, 1:
+		nSni = 0
+	case 2:
+		nSni = 2
+	}
+	for k := 0; k < nSni; k++ {
+		var entries []c06SniEntry
+		var parts []string
+		found := false
+		itExp, itCls := "", ""
+		ne := 1
+		switch r.Intn(12) {
+		case 0:
+			ne = 0
+		case 1:
+			ne = 2
+		case 2:
+			ne = 3
+		}
+		for j := 0; j < ne; j++ {
+			nm, exp, cls := g.name()
+			typ := byte(0)
+			if r.Chance(0.15) {
+				typ = byte(r.Range(1, 255))
+			}
+			entries = append(entries, c06SniEntry{typ, nm})
+			parts = append(parts, fmt.Sprintf("%d.%s", typ, c06Hex(nm)))
+			if typ == 0 && !found {
+				found = true
+				itExp, itCls = exp, cls
+			}
+		}
+		items = append(items, item{c06Ext{0, c06SniData(entries)}, "s" + strings.Join(parts, "/"), itExp, itCls})
+	}
+	if nSni == 2 {
+		g.stats.Inc("hello.two_sni_exts")
+	}
+	// the usual suspects, in any order
+	if r.Chance(0.9) {
+		other(43, []byte{2, 3, 4})
+	}
+	if r.Chance(0.8) {
+		other(16, []byte{0, 12, 2, 'h', '2', 8, 'h', 't', 't', 'p', '/', '1', '.', '1'})
+	}
+	if r.Chance(0.8) {
+		ks := g.bytes(r.Range(36, 120))
+		if r.Chance(0.2) {
+			ks = g.bytes(r.Range(1100, 1300)) // post-quantum sized share
+			g.stats.Inc("hello.pq_keyshare")
+		}
+		other(51, ks)
+	}
+	if r.Chance(0.6) {
+		other(10, []byte{0, 4, 0, 29, 0, 23})
+	}
+	if r.Chance(0.5) {
+		other(13, g.bytes(2*r.Range(2, 10)))
+	}
+	if r.Chance(0.4) {
+		other(23, nil)
+	}
+	if r.Chance(0.4) {
+		other(35, nil)
+	}
+	if r.Chance(0.3) {
+		other(0xff01, []byte{0})
+	}
+	for k := r.Intn(3); k > 0; k-- {
+		d := []byte(nil)
+		if r.Bool() {
+			d = []byte{0}
+		}
+		other(c06Grease(r), d)
+		g.stats.Inc("hello.grease_ext")
+	}
+	// shuffle
+	for i := len(items) - 1; i > 0; i-- {
+		j := r.Intn(i + 1)
+		items[i], items[j] = items[j], items[i]
+	}
+	if r.Chance(0.35) { // padding extension, usually last
+		other(21, make([]byte, r.Intn(300)))
+		g.stats.Inc("hello.padding_ext")
+	}
+	if r.Chance(0.1) { // an empty extension as the very last one
+		other(uint16(r.Range(1, 60)), nil)
+		g.stats.Inc("hello.empty_last_ext")
+	}
+	var texts []string
+	decided := false
+	for _, it := range items {
+		h.Exts = append(h.Exts, it.e)
+		texts = append(texts, it.text)
+		if it.e.Typ == 0 && it.cls != "" && !decided { // first host_name in wire order
+			decided = true
+			c.expect, c.class = it.exp, it.cls
+		}
+	}
+	extT := "-"
+	if len(texts) > 0 {
+		extT = strings.Join(texts, ",")
+	}
+	if r.Chance(0.02) {
+		h.NoExtBlock = true
+		h.Exts = nil
+		extT = "none"
+		c.expect, c.class = "na", "noextblock"
+	}
+	c.structT = fmt.Sprintf("%d %s %s %s %s %s", h.Minor, c06Hex(h.Random), c06Hex(h.Sid), c06Hex(h.Suites), c06Hex(h.Comp), extT)
+	g.stats.Inc("hello.class." + c.class)
+	g.stats.Inc(fmt.Sprintf("hello.sid_len.%d", (len(h.Sid)+15)/16*16))
+	return c
+}
+
+func (g *c06Gen) mutate(b []byte) ([]byte, string) {
+	r := g.r
+	m := append([]byte(nil), b...)
+	if len(m) == 0 {
+		return m, "none"
+	}
+	switch r.Intn(7) {
+	case 0:
+		return m[:r.Intn(len(m))], "truncate"
+	case 1:
+		i := r.Intn(len(m))
+		m[i] ^= 1 << uint(r.Intn(8))
+		return m, "bitflip"
+	case 2: // tweak a byte in the structural part by ±1
+		lim := len(m)
+		if lim > 140 {
+			lim = 140
+		}
+		i := r.Intn(lim)
+		if r.Bool() {
+			m[i]++
+		} else {
+			m[i]--
+		}
+		return m, "tweak_head"
+	case 3: // tweak a byte near the end
+		i := len(m) - 1 - r.Intn(min(len(m), 24))
+		if r.Bool() {
+			m[i]++
+		} else {
+			m[i]--
+		}
+		return m, "tweak_tail"
+	case 4: // zero a length-looking pair
+		i := r.Intn(len(m))
+		m[i] = 0
+		if i+1 < len(m) {
+			m[i+1] = byte(r.Intn(3))
+		}
+		return m, "zero_len"
+	case 5:
+		k := r.Range(1, 4)
+		for ; k > 0; k-- {
+			i := r.Intn(len(m))
+			m[i] ^= 1 << uint(r.Intn(8))
+		}
+		return m, "multiflip"
+	default:
+		i := r.Intn(len(m))
+		m[i] = 0xff
+		if i+1 < len(m) {
+			m[i+1] = 0xff
+		}
+		return m, "ff_len"
+	}
+}
+
+// cut b into chunks according to a strategy
+func (g *c06Gen) cuts(b []byte) ([][]byte, string) {
+	r := g.r
+	n := len(b)
+	cutAt := func(pos []int) [][]byte {
+		sort.Ints(pos)
+		var out [][]byte
+		prev := 0
+		for _, p := range pos {
+			if p <= prev || p >= n {
+				continue
+			}
+			out = append(out, b[prev:p])
+			prev = p
+		}
+		return append(out, b[prev:])
+	}
+	switch r.Intn(9) {
+	case 0:
+		return [][]byte{b}, "whole"
+	case 1:
+		return cutAt([]int{5}), "header_then_rest"
+	case 2:
+		return cutAt([]int{r.Range(1, 4)}), "inside_header"
+	case 3:
+		return cutAt([]int{5, 5 + r.Intn(max(1, n-5))}), "header_mid_rest"
+	case 4: // many random cuts after the header
+		k := r.Range(2, 8)
+		pos := []int{r.Range(5, 9)}
+		for ; k > 0; k-- {
+			pos = append(pos, r.Intn(n+1))
+		}
+		return cutAt(pos), "random_cuts"
+	case 5: // byte by byte for the first 60 bytes after the header
+		pos := []int{5}
+		for i := 6; i < min(n, 66); i++ {
+			pos = append(pos, i)
+		}
+		return cutAt(pos), "bytewise"
+	case 6:
+		return cutAt([]int{n - 1}), "last_byte_late"
+	case 7:
+		return cutAt([]int{r.Range(5, 12), n - r.Range(1, 10)}), "tail_late"
+	default:
+		return cutAt([]int{r.Intn(n + 1)}), "one_cut"
+	}
+}
+
+func (g *c06Gen) httpHead() (b []byte, expect string, class string) {
+	r := g.r
+	method := c06Methods[r.Intn(len(c06Methods))]
+	target := "/" + g.plainName()
+	if r.Chance(0.2) {
+		target = "http://" + g.plainName() + ":8080/x?y=z"
+	}
+	var sb bytes.Buffer
+	sb.WriteString(method + " " + target + " HTTP/1.1\r\n")
+	type hdr struct{ k, v string }
+	var hs []hdr
+	nm, exp, cls := g.name()
+	if cls == "nonascii" || strings.ContainsAny(string(nm), "\r\n") {
+		nm, exp, cls = []byte(g.plainName()), "", "plain"
+		exp = string(nm)
+	}
+	hostKey := []string{"Host", "host", "HOST", "hOsT", " Host", "Host "}[r.Intn(6)]
+	sep := []string{" ", "", "  ", "\t"}[r.Intn(4)]
+	hs = append(hs, hdr{"User-Agent", " curl/8.0"}, hdr{"Accept", " */*"})
+	if r.Chance(0.3) {
+		hs = append(hs, hdr{"X-Host", " decoy.example"})
+	}
+	if r.Chance(0.2) {
+		hs = append(hs, hdr{"Hostx", " decoy2.example"})
+	}
+	withHost := r.Chance(0.85)
+	if withHost {
+		hs = append(hs, hdr{hostKey, sep + string(nm) + []string{"", " ", "\t "}[r.Intn(3)]})
+	} else {
+		exp, cls = "nf", "nohost"
+	}
+	for i := len(hs) - 1; i > 0; i-- {
+		j := r.Intn(i + 1)
+		hs[i], hs[j] = hs[j], hs[i]
+	}
+	if withHost && r.Chance(0.15) { // second Host header: the first one wins
+		hs = append(hs, hdr{"Host", " second.example"})
+	}
+	for _, h := range hs {
+		sb.WriteString(h.k + ":" + h.v + "\r\n")
+	}
+	if r.Chance(0.1) {
+		sb.WriteString("garbage line without colon\r\n")
+	}
+	sb.WriteString("\r\n")
+	if r.Chance(0.3) {
+		sb.WriteString("Host: in-body.example\r\n\r\n")
+	}
+	if withHost && strings.TrimSpace(string(nm)) == "" {
+		exp = "nf"
+	}
+	return sb.Bytes(), exp, "http." + cls
+}
+
+type c06Frame struct {
+	off  int
+	data []byte
+}
+
+type c06Sealed struct {
+	start, pnOff, stop int
+	dcid, plain        []byte
+	dead               bool
+}
+
+type c06QuicCase struct {
+	datagrams [][]byte
+	oracle    []*c06Sealed
+	class     []string
+}
+
+func (g *c06Gen) quicFrames(hs []byte) ([]c06Frame, string) {
+	r := g.r
+	n := len(hs)
+	var cutPos []int
+	cls := ""
+	switch r.Intn(6) {
+	case 0:
+		cls = "one_frame"
+	case 1:
+		cutPos = []int{r.Range(1, max(1, n-1))}
+		cls = "two_frames"
+	case 2:
+		for k := r.Range(2, 7); k > 0; k-- {
+			cutPos = append(cutPos, r.Range(1, max(1, n-1)))
+		}
+		cls = "several_frames"
+	case 3: // chrome-like: many small pieces
+		for p := r.Range(1, 40); p < n; p += r.Range(1, 120) {
+			cutPos = append(cutPos, p)
+		}
+		cls = "many_frames"
+	case 4: // cut right around the first 48 bytes (header / session id area) and the tail
+		cutPos = []int{r.Range(1, min(n-1, 48)), n - r.Range(1, min(n-1, 12))}
+		cls = "boundary_cuts"
+	default:
+		cutPos = []int{4, 6, 38, 39}
+		cls = "field_cuts"
+	}
+	sort.Ints(cutPos)
+	var frames []c06Frame
+	prev := 0
+	for _, p := range cutPos {
+		if p <= prev || p >= n {
+			continue
+		}
+		frames = append(frames, c06Frame{prev, hs[prev:p]})
+		prev = p
+	}
+	frames = append(frames, c06Frame{prev, hs[prev:]})
+	// duplicates / overlaps (consistent with the stream)
+	if r.Chance(0.25) {
+		a := r.Intn(n)
+		b := a + r.Intn(n-a+1)
+		frames = append(frames, c06Frame{a, hs[a:b]})
+		cls += "+overlap"
+	}
+	if r.Chance(0.1) {
+		frames = append(frames, c06Frame{r.Intn(n + 1), nil}) // zero-length CRYPTO frame
+		cls += "+empty"
+	}
+	// order
+	switch r.Intn(4) {
+	case 0:
+	case 1:
+		for i, j := 0, len(frames)-1; i < j; i, j = i+1, j-1 {
+			frames[i], frames[j] = frames[j], frames[i]
+		}
+		cls += "+reversed"
+	default:
+		for i := len(frames) - 1; i > 0; i-- {
+			j := r.Intn(i + 1)
+			frames[i], frames[j] = frames[j], frames[i]
+		}
+		cls += "+shuffled"
+	}
+	return frames, cls
+}
+
+// encode frames into packet payloads (with PADDING / PING sprinkled), packets into datagrams
+func (g *c06Gen) quicCase(hs []byte, version uint32) *c06QuicCase {
+	r := g.r
+	frames, cls := g.quicFrames(hs)
+	qc := &c06QuicCase{}
+	qc.class = append(qc.class, "frames."+cls)
+	nPk := 1
+	if len(frames) > 1 {
+		nPk = r.Range(1, min(4, len(frames)))
+	}
+	per := (len(frames) + nPk - 1) / nPk
+	dcid := g.bytes([]int{8, 8, 8, 0, 1, 20, 16}[r.Intn(7)])
+	scid := g.bytes([]int{0, 0, 8, 20, 5}[r.Intn(5)])
+	typeBits := byte(0)
+	if version == c06QuicV2 {
+		typeBits = 1
+	}
+	var payloads [][]byte
+	for i := 0; i < len(frames); i += per {
+		var p []byte
+		pad := func() {
+			switch r.Intn(5) {
+			case 0:
+				p = append(p, make([]byte, r.Range(1, 40))...)
+			case 1:
+				p = append(p, 1) // PING
+			case 2:
+				p = append(p, 0x40, 0x00) // PADDING type as a 2-byte varint
+			}
+		}
+		for _, f := range frames[i:min(len(frames), i+per)] {
+			pad()
+			p = append(p, c06CryptoFrame(uint64(f.off), f.data, []int{0, 0, 2, 4, 8}[r.Intn(5)], []int{0, 0, 2, 4}[r.Intn(4)])...)
+		}
+		pad()
+		payloads = append(payloads, p)
+	}
+	qc.class = append(qc.class, fmt.Sprintf("packets.%d", len(payloads)))
+	// datagram layout: each packet its own datagram, or two coalesced
+	var dg []byte
+	base := 0
+	flush := func() {
+		if len(dg) > 0 {
+			qc.datagrams = append(qc.datagrams, dg)
+			base += len(dg)
+			dg = nil
+		}
+	}
+	for i, p := range payloads {
+		pk := &c06QuicPacket{Version: version, TypeBits: typeBits, Dcid: dcid, Scid: scid, PnLen: r.Range(1, 4),
+			LenSz: []int{0, 2, 2, 4}[r.Intn(4)], TokLenSz: []int{0, 0, 2}[r.Intn(3)]}
+		pk.Pn = uint32(i+r.Intn(3)*256+r.Intn(2)*70000) & uint32(uint64(1)<<(8*uint(pk.PnLen))-1)
+		if r.Chance(0.15) {
+			pk.Token = g.bytes(r.Range(1, 70))
+		}
+		// pad the packet like clients do (datagram >= 1200) in the single-packet-per-datagram case
+		if r.Chance(0.6) && len(p) < 1150 {
+			p = append(p, make([]byte, 1150-len(p))...)
+		}
+		for pk.PnLen+len(p) < 4 {
+			p = append(p, 0)
+		}
+		pk.Payload = p
+		raw := pk.Seal()
+		se := &c06Sealed{start: base + len(dg), pnOff: pk.PnOffset, stop: pk.TotalLen, dcid: dcid, plain: p}
+		qc.oracle = append(qc.oracle, se)
+		dg = append(dg, raw...)
+		coalesce := r.Chance(0.25) && i+1 < len(payloads)
+		if !coalesce {
+			switch r.Intn(8) {
+			case 0: // trailing garbage that is not a long header
+				dg = append(dg, make([]byte, r.Range(1, 30))...)
+				qc.class = append(qc.class, "trail.zeros")
+			case 1: // a coalesced 0-RTT / Handshake-looking long header packet
+				junk := g.bytes(r.Range(20, 60))
+				junk[0] = 0xd0 | junk[0]&0x0f
+				if version == c06QuicV2 {
+					junk[0] = 0xe0 | junk[0]&0x0f
+				}
+				dg = append(dg, junk...)
+				qc.class = append(qc.class, "trail.longhdr")
+			}
+			flush()
+		} else {
+			qc.class = append(qc.class, "coalesced")
+		}
+	}
+	flush()
+	if r.Chance(0.2) && len(qc.datagrams) > 1 { // datagram reordering
+		i, j := r.Intn(len(qc.datagrams)), r.Intn(len(qc.datagrams))
+		if i != j {
+			c06SwapDatagrams(qc, i, j)
+			qc.class = append(qc.class, "datagrams.reordered")
+		}
+	}
+	return qc
+}
+
+// swap two datagrams and recompute the absolute packet offsets of the oracle
+func c06SwapDatagrams(qc *c06QuicCase, i, j int) {
+	starts := make([]int, len(qc.datagrams)+1)
+	for k, d := range qc.datagrams {
+		starts[k+1] = starts[k] + len(d)
+	}
+	owner := make([]int, len(qc.oracle))
+	rel := make([]int, len(qc.oracle))
+	for k, se := range qc.oracle {
+		for d := range qc.datagrams {
+			if se.start >= starts[d] && se.start < starts[d+1] {
+				owner[k], rel[k] = d, se.start-starts[d]
+			}
+		}
+	}
+	qc.datagrams[i], qc.datagrams[j] = qc.datagrams[j], qc.datagrams[i]
+	for k := range owner {
+		if owner[k] == i {
+			owner[k] = j
+		} else if owner[k] == j {
+			owner[k] = i
+		}
+	}
+	for k, d := range qc.datagrams {
+		starts[k+1] = starts[k] + len(d)
+	}
+	for k, se := range qc.oracle {
+		se.start = starts[owner[k]] + rel[k]
+	}
+}
+
+// corrupt one byte of one datagram; packets covering it stop authenticating
+func (g *c06Gen) quicCorrupt(qc *c06QuicCase) {
+	r := g.r
+	d := r.Intn(len(qc.datagrams))
+	if len(qc.datagrams[d]) == 0 {
+		return
+	}
+	abs := 0
+	for k := 0; k < d; k++ {
+		abs += len(qc.datagrams[k])
+	}
+	i := r.Intn(len(qc.datagrams[d]))
+	if r.Chance(0.5) {
+		i = r.Intn(min(len(qc.datagrams[d]), 60)) // header area
+	}
+	qc.datagrams[d] = append([]byte(nil), qc.datagrams[d]...)
+	qc.datagrams[d][i] ^= 1 << uint(r.Intn(8))
+	for _, se := range qc.oracle {
+		if abs+i >= se.start && abs+i < se.start+se.stop {
+			se.dead = true
+		}
+	}
+	qc.class = append(qc.class, "corrupt")
+}
+
+func c06WantStr(hc *c06HelloCase) string {
+	// documented answer BEFORE NormalizeDomain, computed from the structure (not from bytes)
+	if hc.h.NoExtBlock {
+		return "err:na"
+	}
+	for _, e := range hc.h.Exts {
+		if e.Typ != 0 {
+			continue
+		}
+		// walk the ServerNameList we encoded ourselves
+		d := e.Data[2:]
+		for len(d) >= 3 {
+			l := int(d[1])<<8 | int(d[2])
+			if d[0] == 0 {
+				return "ok:" + c06Hex(bytes.TrimSuffix(d[3:3+l], []byte(".")))
+			}
+			d = d[3+l:]
+		}
+	}
+	return "err:nf"
+}
+
+// property-level oracle on the implementation side: the answer is the carried name.
